@@ -291,6 +291,14 @@ class SuitNull(SuitObject):
             raise ValueError(f"Unable to create NULL from {value}")
         super().__init__(value)
 
+    @classmethod
+    def from_cbor(cls, cbstr: bytes) -> SuitNull:
+        """Restore SUIT representation from passed CBOR."""
+        if cbstr != b"\xf6":
+            # e.g. a byte string that merely starts with the encoding of null
+            raise ValueError(f"Unable to create NULL from {cbstr.hex()}")
+        return cls(None)
+
 
 class SuitInt(SuitObject):
     """Representation of int type."""
